@@ -21,6 +21,7 @@ package main
 // computation from the sorted content (single version), and no two different contents share a root in the run.
 
 import (
+	"context"
 	"bytes"
 	"fmt"
 	"math/rand"
@@ -196,6 +197,7 @@ func runMptMap(ops []string, checkCanon bool) CaseResult {
 				val = bigValue
 			}
 			before := st.mpt.GetRoot()
+			ccBefore, szBefore := st.mpt.GetChangeCount(), st.mpt.GetNodeDB().Size(context.Background())
 			pathBuf := []byte(path)
 			valBuf := append([]byte(nil), val...)
 			out = guard(func() string {
@@ -227,6 +229,9 @@ func runMptMap(ops []string, checkCanon bool) CaseResult {
 				}
 				if !bytes.Equal(before, st.mpt.GetRoot()) {
 					fail(i, "rejected insert changed the root")
+				}
+				if cc, sz := st.mpt.GetChangeCount(), st.mpt.GetNodeDB().Size(context.Background()); cc != ccBefore || sz != szBefore {
+					fail(i, "rejected insert changed the trie's pending changes / node store (change count %d -> %d, store size %d -> %d)", ccBefore, cc, szBefore, sz)
 				}
 				tags["oversize"] = true
 			case f[0] == "ins":
@@ -320,6 +325,20 @@ func runMptMap(ops []string, checkCanon bool) CaseResult {
 			})
 			if want := "ok " + fmtPairs(sortedPairs(st.content)); got != want {
 				fail(i, "afterwards iteration = %q, want %q", got, want)
+			} else if i%3 == 0 {
+				// the value callbacks do not depend on which other node kinds the caller asked for
+				for _, mask := range []byte{util.NodeTypesAll, util.NodeTypeValueNode | util.NodeTypeFullNode, util.NodeTypeValueNode | util.NodeTypeLeafNode, util.NodeTypeValueNode | util.NodeTypeExtensionNode} {
+					gm := guard(func() string {
+						ps, err := iterPairsMask(st.mpt, mask)
+						if err != nil {
+							return errKind(err)
+						}
+						return "ok " + fmtPairs(ps)
+					})
+					if gm != want {
+						fail(i, "afterwards iteration with node-type mask %d reports values %q, want %q", mask, gm, want)
+					}
+				}
 			}
 			// the same content must be readable through a second trie over the same store (fresh node cache):
 			// the writing trie's own cache must not be what makes the state readable
@@ -472,7 +491,7 @@ func genMptMap(fixedVersion bool) func(r *rand.Rand, tier string, idx int) []str
 				ops = append(ops, "get "+p)
 			case x < 93:
 				ops = append(ops, "iter")
-			case x < 94 && idx%50 == 0:
+			case x < 94 && idx%12 == 0:
 				ops = append(ops, "insbig "+p)
 			case x < 96 && idx%2 == 1:
 				ops = append(ops, "layer")
@@ -486,6 +505,15 @@ func genMptMap(fixedVersion bool) func(r *rand.Rand, tier string, idx int) []str
 					ops = append(ops, "get "+p)
 				}
 			}
+		}
+		if idx%6 == 0 && len(pool) > 0 {
+			// over-size values at interior positions (a proper prefix of a stored path, the empty path): the
+			// rejection must leave no trace, not even an orphan node
+			q := pool[r.Intn(len(pool))]
+			if len(q) >= 2 {
+				ops = append(ops, "insbig "+ptok(q[:2*r.Intn(len(q)/2)]))
+			}
+			ops = append(ops, "insbig "+ptok(q))
 		}
 		ops = append(ops, "iter")
 		return ops
